@@ -5,6 +5,8 @@ identify / verify / needs_update of the hasher and of a many-scheme CryptContext
 Allowed outcomes: identify -> bool; verify / needs_update -> bool or a ValueError/TypeError subclass.
 A mutant that still verifies the original password must decode to the same digest bits and settings.
 """
+import logging
+import os
 import re
 import time
 
@@ -22,6 +24,10 @@ SEPARATORS = "$,|:}{=."
 IDENT_ALIASES = [{"$2a$", "$2b$", "$2y$"}, {"$P$", "$H$"}]
 
 CMP_ATTRS = ("checksum", "salt", "rounds", "variant", "version", "block_size", "parallelism", "bare_salt")
+
+# C08_STRICT=1 (diagnostic, off by default): also fail on accepted re-encodings of the same bits that are neither
+# letter case nor padding bits (blank/sign/zero-padded numbers, trailing newline, junk inside base64, ...)
+STRICT = bool(os.environ.get("C08_STRICT"))
 
 LINEAR_CAP = {"sun_md5_crypt": 8192}
 DEFAULT_LINEAR_CAP = 20000
@@ -123,6 +129,12 @@ def mutants(s, tier):
             q = list(parts)
             q[1], q[-1] = q[-1], q[1]
             yield "swap", sep.join(q)
+    # emptied fields (content of one field removed, separators kept)
+    toks = re.split(r"([$,|:={}])", s)
+    if 3 <= len(toks) <= 41:
+        for i in range(0, len(toks), 2):
+            if toks[i]:
+                yield "emptyfield", "".join(toks[:i] + [""] + toks[i + 1 :])
     # numeric fields
     for a, b in numeric_runs(s):
         num = s[a:b]
@@ -243,11 +255,12 @@ def exc_name(o):
 
 
 def build(tier, rng):
+    logging.disable(logging.WARNING)  # passlib logs every unknown digest name met in mutated scram hashes
     infos, skipped = G.list_handlers()
     notes = []
     t_start = time.time()
 
-    g_id = Fan("identify-total", "GenericHandler.identify", "every hasher x mutants of its valid hashes (12-symbol substitution at every position [quick: first 40 then every 5th], deletion, insertion, truncation, separator doubled/missing, field swaps, zero-padded / 20-digit / signed / blank-padded numbers, letter case, empty) x str, utf-8 bytes, latin-1 bytes: returns a bool, never raises")
+    g_id = Fan("identify-total", "GenericHandler.identify", "every hasher x mutants of its valid hashes (12-symbol substitution at every position [quick: first 48 positions, then every 4th, and the last 3; thorough: first 200, then every 2nd], deletion, insertion, truncation, separator doubled/missing, emptied fields, field swaps, zero-padded / 20-digit / signed / blank-padded numbers, letter case, empty) x str, utf-8 bytes, latin-1 bytes: returns a bool, never raises")
     g_vf = Fan("verify-outcome-class", "GenericHandler.verify", "same mutants: verify(original password, mutant) answers a bool or raises a ValueError/TypeError subclass; mutants whose parsed cost exceeds the cap are parsed only")
     g_nu = Fan("needs_update-outcome-class", "GenericHandler.needs_update", "same mutants: needs_update(mutant) answers a bool or raises a ValueError/TypeError subclass")
     g_alt = Fan("altered-never-verifies", "GenericHandler.verify (consteq of recomputed digest)", "same mutants: one that verifies the original password parses to the same digest, salt, rounds, ident (documented aliases 2a/2b/2y, P/H) and other settings as the original")
@@ -283,7 +296,8 @@ def build(tier, rng):
         w = {"hasher": info.name, "original": sm.hash, "mutant": ms, "form": form, "mutation": kind, "secret": sm.secret, "call": via, **info.ctx()}
         if not info.is_generic:
             ok = ms.lower() == sm.hash.lower() and info.name == "htdigest"
-            fan.check(ok, f"altered-verifies:{info.name}:{kind}", "a mutated stored hash still verifies the original password", w)
+            if not fan.check(ok, f"altered-verifies:{info.name}:{kind}", "a mutated stored hash still verifies the original password", w):
+                return
             cls = "letter-case"
         else:
             o = call(info.parse, m if isinstance(m, str) else ms)
@@ -293,14 +307,18 @@ def build(tier, rng):
             same, which = same_bits(info, orig_obj, o[1])
             if which in ("unchecked-digest", "unchecked-first-digest"):
                 fan.fail(f"altered-verifies:{info.name}:{which}", "a stored hash with one of its digests altered still verifies the original password (verify compares only one of the stored digests)", w)
-            else:
-                fan.check(same, f"altered-verifies:{info.name}:{kind}:{which}", f"a mutated stored hash with a different {which} still verifies the original password", w)
+                return
+            if not fan.check(same, f"altered-verifies:{info.name}:{kind}:{which}", f"a mutated stored hash with a different {which} still verifies the original password", w):
+                return
             cls = reencoding_class(sm.hash, ms)
         d = stats["verifying_mutants"].setdefault(info.name, {})
         d[f"{kind}/{cls}"] = d.get(f"{kind}/{cls}", 0) + 1
-        ex = stats["examples"].setdefault(info.name, {})
-        if f"{kind}/{cls}" not in ex or len(ms) < len(ex[f"{kind}/{cls}"][1]):
-            ex[f"{kind}/{cls}"] = [sm.hash, ms]
+        if cls != "letter-case":
+            ex = stats["examples"].setdefault(info.name, {})
+            if f"{kind}/{cls}" not in ex or len(ms) < len(ex[f"{kind}/{cls}"][1]):
+                ex[f"{kind}/{cls}"] = [sm.hash[:140], ms[:140]]
+            if STRICT and (cls == "other" or not all(c.isascii() and (c.isalnum() or c in "./+-_=") for c in ms)):
+                fan.fail(f"undocumented-reencoding:{info.name}:{kind}", "[C08_STRICT] a re-encoding that is neither letter case nor padding bits is accepted", w)
 
     def run_hasher_calls(info, sm, orig_obj, orig_cost, kind, m, form, arb=False):
         """identify / verify / needs_update of one hasher on one presented value"""
@@ -394,7 +412,7 @@ def build(tier, rng):
         o = call(ctx.identify, m)
         picked = None
         if o[0] == "exc":
-            fan.fail(f"{pre}-identify-raises:{exc_name(o)}:{info.name if info else 'arbitrary'}", "CryptContext.identify raised instead of answering", {**wit("ctx.identify(presented)"), "exception": repr(o[1])[:160]})
+            fan.fail(f"{pre}-identify-raises:{exc_name(o)}", "CryptContext.identify raised instead of answering", {**wit("ctx.identify(presented)"), "exception": repr(o[1])[:160]})
         else:
             picked = o[1]
             fan.check(picked is None or isinstance(picked, str), f"{pre}-identify-type", "CryptContext.identify answered neither a scheme name nor None", lambda: {**wit("ctx.identify(presented)"), "got": repr(picked)})
@@ -443,9 +461,14 @@ def build(tier, rng):
                         salt = bytes.fromhex(ms[6:14])
                         if hashlib.sha1(secret.encode("utf-16-le") + salt).hexdigest() == ms[14:].lower():
                             continue
-                    po, pm = call(pinfo.parse, sm.hash), call(pinfo.parse, m)
-                    ov = call(pinfo.h.verify, secret, sm.hash, **pinfo.ctx())
-                    ok = po[0] == "ok" and pm[0] == "ok" and ov == ("ok", True) and same_bits(pinfo, po[1], pm[1])[0]
+                    pm = call(pinfo.parse, m)
+                    if pm[0] == "ok" and pinfo.is_generic and info.is_generic and pinfo.base is info.base:
+                        # prefix-wrapped and bare form of the same hasher ({CRYPT}$1$... / $1$...): compare the records
+                        ok = same_bits(pinfo, orig_objs.get(id(sm)), pm[1])[0]
+                    else:
+                        po = call(pinfo.parse, sm.hash)
+                        ov = call(pinfo.h.verify, secret, sm.hash, **pinfo.ctx())
+                        ok = po[0] == "ok" and pm[0] == "ok" and ov == ("ok", True) and same_bits(pinfo, po[1], pm[1])[0]
                     fan.check(ok, f"ctx-altered-verifies-as:{info.name}->{picked}:{kind}", "a mutated hash verifies the original password under another scheme of the context although the original is not the same hash there", lambda: {**wit("ctx.verify"), "picked_scheme": picked})
 
     # ---- mutants of valid hashes ----------------------------------------------------------------------
@@ -485,24 +508,23 @@ def build(tier, rng):
             if not (ok0 == ("ok", True) or disabled):
                 skipped.append(f"{info.name}: original hash does not verify, left to C07 ({s[:40]})")
                 continue
-            sub_tier = tier
-            if idx > 0 and tier == "quick":
-                sub_tier = "quick"
             seen = set()
             full = idx == 0 or tier != "quick"
             slow = tv > 0.004  # expensive digests: only every k-th digest-region substitution is verified
             k = 0
             nctx = 0
-            ctx_every = 3 if tier == "quick" else 2
-            for kind, m in mutants(s, sub_tier):
+            # thinning moduli are coprime to the alphabet size (12) so that no symbol is skipped systematically
+            ctx_every = 7 if tier == "quick" else 1
+            nb = 0
+            for kind, m in mutants(s, tier):
                 if m in seen or m == s:
                     continue
                 seen.add(m)
-                if not full and kind in ("sub", "ins") and (len(seen) % 2):
+                if not full and kind in ("sub", "ins") and (len(seen) % 5) not in (0, 2):
                     continue
                 if slow and kind in ("sub", "ins", "del", "trunc"):
                     k += 1
-                    if k % (8 if tier == "quick" else 3):
+                    if k % (7 if tier == "quick" else 5):
                         continue
                 stats["mutants"] += 1
                 for fan in (g_id, g_vf, g_nu, g_alt):
@@ -517,8 +539,9 @@ def build(tier, rng):
                     T["ctx"] += time.time() - t1
                     stats["context_mutants"] += 1
                     g_ctx.case((info.name, kind, m))
-                # bytes: every structural mutant, and half of the positional ones in quick
-                if kind in ("sub", "ins") and tier == "quick" and (len(seen) % 2):
+                # bytes: every structural mutant, every mutant holding NUL / non-ASCII, and a fifth of the other positional ones in quick
+                nb += 1
+                if kind in ("sub", "ins") and tier == "quick" and m.isascii() and "\x00" not in m and nb % 5:
                     continue
                 for form, mb in byte_forms(m):
                     run_hasher_calls(info, sm, orig_obj, orig_cost, kind, mb, form)
@@ -567,8 +590,8 @@ def build(tier, rng):
         "parse_only_over_cost_cap": stats["parse_only"],
         "arbitrary_strings": len(arbs),
         "context_schemes": len(names) if ctx is not None else 0,
-        "verifying_mutants_by_class": stats["verifying_mutants"],
-        "verifying_mutant_examples": stats["examples"],
+        "tolerated_verifying_mutants_by_class": stats["verifying_mutants"],
+        "tolerated_verifying_mutant_examples": stats["examples"],
         "slowest_hashers_seconds": slowest,
         "seconds": round(time.time() - t_start, 1),
     }
